@@ -420,10 +420,12 @@ SHAPES = {
     "missing": ("-,x=D:nope,y=P:nope/-,x=T:0:3", "0,0,1"),
     "star-nopfx": ("-,x=D:*/-,x=T:0:3", "0,1"),
     "star-emptypfx": ("=,x=D:*,y=P:*/-,x=T:0:3,y=T:1:4", "0,0,1,1"),
+    # the shortest wildcard prefix: one character and the asterisk (`len(prefix) > 1` in get_delegate_pattern)
+    "pre1": ("-,x=D:p*,y=P:p*/-,px=T:0:3,py=T:1:4,x=T:0:7", "0,0,1,1"),
 }
 MAIN_SHAPES = ["same-D", "same-P", "expl-D", "expl-P", "pre-D", "pre-P", "star-D", "star-P"]
 CHAIN_SHAPES = ["D-P-T", "P-D-T", "self-D", "star2-same", "star2-diff", "star2-diffP", "star2-deep", "pre-chain"]
-ODD_SHAPES = ["missing", "star-nopfx", "star-emptypfx"]
+ODD_SHAPES = ["missing", "star-nopfx", "star-emptypfx", "pre1"]
 CMP_SHAPES = ["cmp-D", "cmp-P", "cmp-chain"]
 # tokens of equal-but-distinct objects (see SPECIAL) next to the ints they are equal to
 CMP_VALUES = [1, 100, 101, 1, 100, 3, 104, 3, 4, 105, 102, 103, 102, 106, 107, 2]
